@@ -380,6 +380,16 @@ impl StrokeCtx {
             let hypot = cross.hypot(dot);
             // possible TODO: a minor speedup could be squaring both sides
             if dot <= 0.0 || cross.abs() >= hypot * self.join_thresh {
+                // On the inner side of the turn, route the outline through the vertex
+                // itself. Otherwise the triangle between the two offset points and the
+                // vertex is traversed with negative orientation and, when an adjacent
+                // segment is shorter than the stroke is wide, cancels the coverage of
+                // the neighbouring segment under the non-zero fill rule.
+                if cross > 0.0 {
+                    self.backward_path.line_to(p0);
+                } else if cross < 0.0 {
+                    self.forward_path.line_to(p0);
+                }
                 match style.join {
                     Join::Bevel => {
                         self.forward_path.line_to(p0 - norm);
